@@ -261,6 +261,7 @@ struct Net {
 	feerate: Vec<u32>,
 	executed: usize,
 	skipped: usize,
+	funding_txids: Vec<(bitcoin::Txid, usize)>,
 	mgr_snaps: Vec<Vec<Vec<u8>>>,
 	/// snapshot taken while no monitor update of that node was in flight (nothing was being held)
 	mgr_clean: Vec<Vec<bool>>,
@@ -395,9 +396,13 @@ impl Net {
 				let ty: String = ty.chars().take_while(|c| c.is_alphanumeric()).collect();
 				use bitcoin::hashes::Hash as _;
 				let known = self.txids.lock().unwrap().get(&tx.compute_txid().to_byte_array()).cloned();
+				let mut out_values = tx.output.iter().map(|o| o.value.to_sat()).collect::<Vec<_>>();
+				out_values.sort();
+				let spends = self.funding_chan(tx);
 				let (cn, cc, cnum, cholder) = match known { Some((n, c, num, h)) => (n as i64, c as i64, num as i64, h), None => (-1, 0, -1, false) };
 				self.ev(json!({"ev":"broadcast","node":i,"type":ty,"inputs":tx.input.len(),"outputs":tx.output.len(),
-					"locktime": tx.lock_time.to_consensus_u32(),"c_node":cn,"chan":cc,"c_num":cnum,"c_holder":cholder}));
+					"locktime": tx.lock_time.to_consensus_u32(),"c_node":cn,"chan":cc,"c_num":cnum,"c_holder":cholder,
+					"out_values": out_values, "spends_chan": spends}));
 			}
 		}
 		// the application persists the manager whenever the library asks for it
@@ -416,6 +421,20 @@ impl Net {
 			// the node asked its transport to drop the peer: do what PeerManager would
 			self.do_disconnect(a, b);
 		}
+	}
+
+	/// which channel's funding output does this transaction spend (0 = none)?
+	fn funding_chan(&self, tx: &bitcoin::Transaction) -> usize {
+		for (key, cid) in self.chan_ids.iter() {
+			let _ = key;
+			for n in self.nodes.iter() {
+				if let Some(cd) = n.node.list_channels().iter().find(|c| c.channel_id == *cid) {
+					if let Some(fo) = cd.funding_txo { if tx.input.iter().any(|i| i.previous_output.txid == fo.txid && i.previous_output.vout == fo.index as u32) { return self.chan(cid); } }
+				}
+			}
+		}
+		for (txid, c) in self.funding_txids.iter() { if tx.input.iter().any(|i| i.previous_output.txid == *txid) { return *c; } }
+		0
 	}
 
 	fn do_disconnect(&mut self, a: usize, b: usize) -> bool {
@@ -497,12 +516,19 @@ impl Net {
 		}
 	}
 
-	fn deliver_one(&mut self, from: usize, to: usize) -> bool {
-		let w = match self.queues.get_mut(&(from, to)).and_then(|q| q.pop_front()) {
+	fn deliver_one(&mut self, from: usize, to: usize) -> bool { self.deliver_ext(from, to, false) }
+	fn deliver_ext(&mut self, from: usize, to: usize, tamper: bool) -> bool {
+		if tamper {
+			// only a revoke_and_ack at the head of the queue is tampered with (wrong secret)
+			match self.queues.get(&(from, to)).and_then(|q| q.front()) { Some(Wire::RAA(_)) => {}, _ => return false }
+		}
+		let mut w = match self.queues.get_mut(&(from, to)).and_then(|q| q.pop_front()) {
 			Some(w) => w,
 			None => return false,
 		};
 		let mut d = self.describe(&w);
+		d["tampered"] = json!(tamper);
+		if tamper { if let Wire::RAA(ref mut m) = w { m.per_commitment_secret[7] ^= 0x10; } }
 		d["ev"] = json!("deliver");
 		d["from"] = json!(from);
 		d["to"] = json!(to);
@@ -642,6 +668,28 @@ impl Net {
 				let f = op["from"].as_u64().unwrap() as usize;
 				let t = op["to"].as_u64().unwrap() as usize;
 				did = self.deliver_one(f, t);
+			},
+			"close" => {
+				let a = op["a"].as_u64().unwrap() as usize;
+				let b = op["b"].as_u64().unwrap() as usize;
+				if a < n && b < n && self.chan_ids.contains_key(&(a.min(b), a.max(b))) {
+					let cid = self.chan_ids[&(a.min(b), a.max(b))];
+					let pb = self.nodes[b].node.get_our_node_id();
+					let c = self.chan(&cid);
+					let ok = self.nodes[a].node.close_channel(&cid, &pb).is_ok();
+					self.ev(json!({"ev":"close","node":a,"chan":c,"ok":ok}));
+					self.drain();
+				} else { did = false; }
+			},
+			"tamper_raa" => {
+				let f = op["from"].as_u64().unwrap() as usize;
+				let t = op["to"].as_u64().unwrap() as usize;
+				// deliver what precedes the first revoke_and_ack in the queue, then tamper with it
+				let pos = self.queues.get(&(f, t)).and_then(|q| q.iter().position(|w| matches!(w, Wire::RAA(_))));
+				match pos {
+					Some(p) => { for _ in 0..p { self.deliver_one(f, t); } did = self.deliver_ext(f, t, true); },
+					None => { did = false; },
+				}
 			},
 			"deliver_all" => {
 				let mut guard = 0;
@@ -918,12 +966,19 @@ fn build_net(run: u64, cfg: &Value, log: &Log) -> Net {
 	let mut net = Net {
 		nodes, cfgs, persisters, queues: HashMap::new(), connected, log: log.clone(), chans, hashes, points: Vec::new(),
 		pays: Vec::new(), scids, chan_ids, run, feerate: vec![feerate0; n], executed: 0, skipped: 0,
-		mgr_snaps: vec![Vec::new(); n], mgr_clean: vec![Vec::new(); n], node_cfgs, txids,
+		funding_txids: Vec::new(), mgr_snaps: vec![Vec::new(); n], mgr_clean: vec![Vec::new(); n], node_cfgs, txids,
 	};
 	for i in 0..n {
 		let _ = net.nodes[i].node.get_and_clear_needs_persistence();
 		net.mgr_snaps[i].push(net.nodes[i].node.encode());
 		net.mgr_clean[i].push(true);
+	}
+	for i in 0..n - 1 {
+		let cid = net.chan_ids[&(i, i + 1)];
+		let c = net.chan(&cid);
+		if let Some(cd) = net.nodes[i].node.list_channels().iter().find(|x| x.channel_id == cid) {
+			if let Some(fo) = cd.funding_txo { net.funding_txids.push((fo.txid, c)); }
+		}
 	}
 	// describe every channel from both ends
 	let mut chans_desc = Vec::new();
@@ -989,6 +1044,9 @@ fn random_script(rng: &mut StdRng, n: usize, profile: &str) -> Value {
 		} else if r < 94 && profile != "nodisc" {
 			let a = rng.gen_range(0..n - 1);
 			ops.push(json!({"op":"reconnect","a":a,"b":a+1}));
+		} else if r < 97 && profile == "tamper" {
+			let a = rng.gen_range(0..n - 1);
+			if rng.gen_bool(0.5) { ops.push(json!({"op":"tamper_raa","from":a,"to":a+1})); } else { ops.push(json!({"op":"tamper_raa","from":a+1,"to":a})); }
 		} else if r < 97 && (profile == "crash" || profile == "reload") {
 			let node = rng.gen_range(0..n);
 			if profile == "reload" || rng.gen_bool(0.3) { ops.push(json!({"op":"reload","node":node})); }
@@ -1016,6 +1074,11 @@ fn random_script(rng: &mut StdRng, n: usize, profile: &str) -> Value {
 	for i in 0..n { ops.push(json!({"op":"complete","node":i,"which":"all"})); }
 	ops.push(json!({"op":"deliver_all"}));
 	ops.push(json!({"op":"proj","final":true}));
+	if profile == "close" || rng.gen_bool(0.15) {
+		let a = rng.gen_range(0..n - 1);
+		if rng.gen_bool(0.5) { ops.push(json!({"op":"close","a":a,"b":a+1})); } else { ops.push(json!({"op":"close","a":a+1,"b":a})); }
+		ops.push(json!({"op":"deliver_all"}));
+	}
 	json!({"cfg":{"nodes":n,"chan_type":chan_type,"value":value,"push":push,"feerate":feerate}, "ops":ops})
 }
 
